@@ -93,6 +93,8 @@ def project(lines, proj):
             continue
         if k == 'p' and proj.get('drop_points'):
             continue
+        if k == 'err' and proj.get('err_codes') is not None and l.split()[2] not in proj['err_codes']:
+            continue
         if k == 'k':
             # model side carries "| spec ... | gen ..." suffixes
             l = l.split(' | ')[0]
